@@ -705,13 +705,28 @@ DIRECTED = [
 ]
 
 
-def _dispatch(c, case):
+def _dispatch_raw(c, case):
     if case["kind"] == "period":
         _run_period(c, case)
     elif case["kind"] == "csv":
         _run_csv(c, case)
     else:
         raise ValueError(case["kind"])
+
+
+def _dispatch(c, case):
+    """An exception that escapes a case means irispie raised on, or returned an unusable value for, an input inside the
+    stated domain (e.g. a non-existent calendar day from to_ymd makes datetime.date raise in the driver): recorded as a
+    violation with the case attached (confirmed by the fresh-process replay like any other), never a harness crash."""
+    try:
+        with c.running(case):
+            _dispatch_raw(c, case)
+    except Exception as exc:
+        import traceback
+        tb = traceback.extract_tb(exc.__traceback__)
+        where = next((f"{fr.name}:{fr.lineno}" for fr in reversed(tb) if "irispie" in fr.filename and "irisverif" not in fr.filename), tb[-1].name if tb else "?")
+        c.violation(f"case-raised:{type(exc).__name__}:{case.get('kind', '?')}",
+                    f"{type(exc).__name__}: {str(exc)[:160]} (last irispie frame / driver function: {where})", case=case)
 
 
 def replay(c, case):
